@@ -227,16 +227,26 @@ def c30_dl_task(t):
     atoms = dl_atoms()
     head = '(set-logic %s)(declare-fun x () %s)(declare-fun y () %s)(declare-fun z () %s)' % (fam.logic, *(['Real' if 'RDL' in famname else 'Int'] * 3))
     hangs = {}
+    small = [a for a in atoms if not a.endswith(' 1)')]      # bounds -1 and 0 only, for the four-atom shapes
+    pairs = list(itertools.combinations(range(len(small)), 2))
     if mode == 'flat':
         jobs = [(o, c) for c in itertools.combinations(range(len(atoms)), 3) for o in ('cores', 'proofs', 'itp', 'ghost')]
-    else:
+    elif mode == 'push':
         jobs = [('', c) for c in itertools.permutations(range(len(atoms)), 3) if c[0] < c[1]]
+    elif mode == 'flat_or':      # two units and a disjunction: the literals of the disjunction are decided above level 0
+        jobs = [(o, p + q) for p in pairs for q in pairs for o in ('cores', 'proofs')]
+    else:                        # 'push2': two constraints in the base frame, two inside the push
+        jobs = [('', p + q) for p in pairs for q in pairs]
     for o, c in jobs[start::step]:
-        A = [atoms[i] for i in c]
+        A = [(atoms if mode in ('flat', 'push') else small)[i] for i in c]
         if mode == 'flat':
             script = S.opt_text((o,)) + head + ''.join('(assert %s)' % a for a in A) + '(check-sat)'
-        else:
+        elif mode == 'push':
             script = head + '(assert %s)(assert %s)(check-sat)(push 1)(assert %s)(check-sat)(pop 1)(check-sat)' % tuple(A)
+        elif mode == 'flat_or':
+            script = S.opt_text((o,)) + head + '(assert %s)(assert %s)(assert (or %s %s))(check-sat)' % tuple(A)
+        else:
+            script = head + '(assert %s)(assert %s)(check-sat)(push 1)(assert %s)(assert %s)(check-sat)(pop 1)(check-sat)' % tuple(A)
         r = w.run(script, timeout=1.0)
         cov['executions'] += 1
         res['distinct'].append((famname, mode, o, c))
@@ -270,6 +280,8 @@ def run_c30(tier):
     chk.run_stage('histories L<=5, deviation 1', [('hist', f, 5, d1, s, n) for f in hf for s in range(n)], c30_task)
     chk.run_stage('difference logic: every triple of %d difference constraints (bounds -1..1, equalities), flat under cores/proofs/interpolants/ghost-vars and as base frame + push' % len(dl_atoms()),
                   [(f, m, s, 16) for f in ('QF_RDL',) for m in ('flat', 'push') for s in range(16)], c30_dl_task)
+    chk.run_stage('difference logic: two constraints + a disjunction of two (cores/proofs), and two in the base frame + two inside a push, over the 30 constraints with bounds -1, 0',
+                  [('QF_RDL', m, s, 32) for m in ('flat_or', 'push2') for s in range(32)], c30_dl_task)
     if tier == 'thorough':
         chk.run_stage('histories L<=5, deviation 2', [('hist', f, 5, d2[len(d1):], s, 32) for f in hf for s in range(32)], c30_task)
         chk.run_stage('sets n<=3, 6-atom pools, deviation 1', [('sets', f, ('core', 3), d1, s, 32) for f in C30_FAMS for s in range(32)], c30_task)
